@@ -800,7 +800,8 @@ def run(ctx):
     ctx.log("%d blocks" % len(blocks))
     total = 0
     results = []
-    for item, r in pool.pmap(work, [[b] for b in blocks]):
+    # the quick tier is ~10 CPU-seconds of work: more than a handful of workers costs more than it saves
+    for item, r in pool.pmap(work, [[b] for b in blocks], nproc=min(pool.NPROC, 6) if ctx.quick else None):
         if isinstance(r, pool.WorkerError):
             raise InfraError(r.tb)
         if isinstance(r, pool.Crash):
